@@ -49,6 +49,13 @@ def treeOk (t : String) : Bool :=
     | [p, c] => (Bytes.ofHexFast p).isSome && p != "-" && (c == "/" || (Bytes.ofHexFast c).isSome)
     | _ => false)
 
+/-- second tree of a fault sequence: files, `=/` directories, `=!` deletions -/
+def tree2Ok (t : String) : Bool :=
+  t == "-" || (t.splitOn ",").all (fun e =>
+    match e.splitOn "=" with
+    | [p, c] => (Bytes.ofHexFast p).isSome && p != "-" && (c == "/" || c == "!" || (Bytes.ofHexFast c).isSome)
+    | _ => false)
+
 /-- `none` = not a case of this part -/
 def handle? (f : List String) : Option String :=
   match f with
@@ -72,6 +79,10 @@ def handle? (f : List String) : Option String :=
     -- GameData over a damaged installation: the specified answer is "no crash"; the components are
     -- covered by `c18_index_*`, `c18_dat_*`, `c18_repo_*`
     if treeOk t && (op == "exists" || op == "extract") && (Bytes.ofHexFast q).isSome
+    then some (answer "=" "ok") else some bad
+  | ["gd2", t, t2, op, q] =>
+    -- fault sequence between open and read
+    if treeOk t && tree2Ok t2 && (op == "exists" || op == "extract") && (Bytes.ofHexFast q).isSome
     then some (answer "=" "ok") else some bad
   | ["leak", n, h, off] =>
     -- residual heap after n failed extractions does not grow with n (`c18_inflate_balanced`)
